@@ -2,6 +2,7 @@ package arkx
 
 import (
 	"sort"
+	"strings"
 
 	"github.com/mlange-42/ark/ecs"
 )
@@ -90,7 +91,70 @@ func (x *Exec) pickTarget(vs []entView) int {
 	return vs[x.rng.Intn(len(vs))].ord
 }
 
+// tupleSets lists the instantiated component tuples (as sorted-by-registration sets) within the model components.
+func (x *Exec) tupleSets() [][]string {
+	if x.tsets != nil {
+		return x.tsets
+	}
+	in := map[string]int{}
+	for i, c := range x.Cfg.Comps {
+		in[c] = i + 1
+	}
+	seen := map[string]bool{}
+	for _, key := range sortedKeys(mapCtors) {
+		t := strings.Split(key, ",")
+		ok := true
+		for _, c := range t {
+			if in[c] == 0 {
+				ok = false
+			}
+		}
+		if !ok {
+			continue
+		}
+		sort.Slice(t, func(i, j int) bool { return in[t[i]] < in[t[j]] })
+		k := strings.Join(t, ",")
+		if !seen[k] {
+			seen[k] = true
+			x.tsets = append(x.tsets, t)
+		}
+	}
+	return x.tsets
+}
+
 func (x *Exec) subset(from []string, min int) []string {
+	if x.Cfg.Arity {
+		// any instantiated tuple that lies within `from`, of any arity (larger ones preferred half of the time)
+		ok := map[string]bool{}
+		for _, c := range from {
+			ok[c] = true
+		}
+		cands := [][]string{}
+		for _, t := range x.tupleSets() {
+			fits := true
+			for _, c := range t {
+				if !ok[c] {
+					fits = false
+				}
+			}
+			if fits {
+				cands = append(cands, t)
+			}
+		}
+		if len(cands) == 0 {
+			return []string{}
+		}
+		if x.rng.Intn(2) == 0 {
+			best := cands[0]
+			for _, t := range cands {
+				if len(t) > len(best) || (len(t) == len(best) && x.rng.Intn(2) == 0) {
+					best = t
+				}
+			}
+			return append([]string{}, best...)
+		}
+		return append([]string{}, cands[x.rng.Intn(len(cands))]...)
+	}
 	r := []string{}
 	for _, c := range from {
 		if x.rng.Intn(2) == 0 {
@@ -460,6 +524,22 @@ func (x *Exec) randomFilter(vs []entView, must string) GenFlt {
 			in[c] = true
 		}
 	}
+	if x.Cfg.Arity && must == "" && x.rng.Intn(2) == 0 {
+		// the required components are one of the instantiated tuples (arity <= 8: FilterN / QueryN)
+		k := 1 + x.rng.Intn(8)
+		cands := [][]string{}
+		for _, t := range x.tupleSets() {
+			if len(t) == k {
+				cands = append(cands, t)
+			}
+		}
+		if len(cands) > 0 {
+			in = map[string]bool{}
+			for _, c := range cands[x.rng.Intn(len(cands))] {
+				in[c] = true
+			}
+		}
+	}
 	for _, c := range comps {
 		if in[c] {
 			f.With = append(f.With, c)
@@ -504,6 +584,19 @@ func (x *Exec) randomObserver() GenObs {
 	for _, c := range cand {
 		if x.rng.Intn(3) == 0 && len(o.Obs) < 2 {
 			o.Obs = append(o.Obs, c)
+		}
+	}
+	if x.Cfg.Arity && len(cand) >= 4 && x.rng.Intn(2) == 0 {
+		// an instantiated tuple of arity 1..4 (Observer1..4)
+		k := 1 + x.rng.Intn(4)
+		cands := [][]string{}
+		for _, t := range x.tupleSets() {
+			if len(t) == k {
+				cands = append(cands, t)
+			}
+		}
+		if len(cands) > 0 {
+			o.Obs = append([]string{}, cands[x.rng.Intn(len(cands))]...)
 		}
 	}
 	for _, c := range comps {
